@@ -128,7 +128,7 @@ theorem unwind_already (depth : Nat) (noRec : Bool) (vro : List VroEnt) (d : Dec
     AlreadyOK cfg.db s'.already := by
   unfold unwind at h
   exact acts_already cfg rec hrec.already false depth noRec vro d _
-    ⟨{ s.env with dirs := aunset s.env.dirs d.name, recs := aunset s.env.recs d.name }, s.aliases, s.unaliased, s.already⟩
+    ⟨{ s.env with dirs := aunset s.env.dirs d.name, recs := aunset s.env.recs d.name }, s.aliases, s.unaliased, s.already, s.cache⟩
     s' ha h
 
 theorem unwind_frame (depth : Nat) (noRec : Bool) (vro : List VroEnt) (d : Decl) (hc : Canon cfg.db d) (s s' : St)
@@ -138,7 +138,7 @@ theorem unwind_frame (depth : Nat) (noRec : Bool) (vro : List VroEnt) (d : Decl)
   unfold unwind at h
   have := acts_frame cfg rank rec hrec false depth noRec vro d (rank d.name) (d.actions cfg.exact)
     (canon_deps_rank cfg.db rank hdag d hc cfg.exact)
-    ⟨{ s.env with dirs := aunset s.env.dirs d.name, recs := aunset s.env.recs d.name }, s.aliases, s.unaliased, s.already⟩
+    ⟨{ s.env with dirs := aunset s.env.dirs d.name, recs := aunset s.env.recs d.name }, s.aliases, s.unaliased, s.already, s.cache⟩
     s' ha h m hr
   rw [this]
   exact aget_aunset_other _ _ _ hm
@@ -255,7 +255,7 @@ theorem setup_unfail (cfg : Cfg) (fuel : Nat) (depth : Nat) (noRec : Bool) (vro 
     | some d =>
       simp only
       obtain ⟨h1, h2⟩ := acts_false_ne_fail (setup cfg k) cfg depth noRec vro d (d.actions cfg.exact)
-        ⟨{ s.env with dirs := aunset s.env.dirs d.name, recs := aunset s.env.recs d.name }, s.aliases, s.unaliased, s.already⟩ s'
+        ⟨{ s.env with dirs := aunset s.env.dirs d.name, recs := aunset s.env.recs d.name }, s.aliases, s.unaliased, s.already, s.cache⟩ s'
       exact ⟨h1, fun h => absurd h h2⟩
 
 /-- everything the proofs need of `setup` at every fuel, by one induction -/
@@ -281,9 +281,12 @@ theorem setup_recOK (cfg : Cfg) (rank : Name → Nat) (hdag : NameDag cfg.db ran
         | error => rw [hres] at h; simp [Res.st?] at h; subst h; exact ha
         | found d reason =>
           rw [hres] at h
-          obtain ⟨hc, _⟩ := resolve_spec cfg.db cfg.path cfg.keep s.already ha n ver vexpr depth _ _ _ _ hres
+          obtain ⟨hc, hname⟩ := resolve_spec cfg.db cfg.path cfg.keep s.already ha n ver vexpr depth _ _ _ _ hres
+          try simp only at h
+          obtain ⟨hc, hname⟩ := pickDecl_spec cfg.db s.cache d _ hc hname
+          revert h hc hname; generalize pickDecl cfg.db s.cache d = d; intro h hc hname
           exact install_already cfg rank hdag (setup cfg k) ih depth noRec vro d reason hc _ s'
-            (register_already cfg depth d reason s ha hc) h
+            (register_already cfg depth d reason (s.afterResolve cfg depth vro n ver vexpr) ha hc) h
       | false =>
         rw [setup_succ_false] at h
         cases hsp : setupProd cfg.db s.env n with
@@ -301,9 +304,12 @@ theorem setup_recOK (cfg : Cfg) (rank : Name → Nat) (hdag : NameDag cfg.db ran
         | found d reason =>
           rw [hres] at h
           obtain ⟨hc, hname⟩ := resolve_spec cfg.db cfg.path cfg.keep s.already ha n ver vexpr depth _ _ _ _ hres
+          try simp only at h
+          obtain ⟨hc, hname⟩ := pickDecl_spec cfg.db s.cache d _ hc hname
+          revert h hc hname; generalize pickDecl cfg.db s.cache d = d; intro h hc hname
           have := install_frame cfg rank hdag (setup cfg k) ih depth noRec vro d reason hc _ s'
-            (register_already cfg depth d reason s ha hc) h m (by rw [hname]; exact hm) (by rw [hname]; exact hr)
-          rw [this, register_env]
+            (register_already cfg depth d reason (s.afterResolve cfg depth vro n ver vexpr) ha hc) h m (by rw [hname]; exact hm) (by rw [hname]; exact hr)
+          rw [this, register_env]; rfl
       | false =>
         rw [setup_succ_false] at h
         cases hsp : setupProd cfg.db s.env n with
@@ -328,9 +334,12 @@ theorem setup_recOK (cfg : Cfg) (rank : Name → Nat) (hdag : NameDag cfg.db ran
         | error => rw [hres] at h; cases h
         | found d reason =>
           rw [hres] at h
-          obtain ⟨hc, _⟩ := resolve_spec cfg.db cfg.path cfg.keep s.already ha n ver vexpr depth _ _ _ _ hres
+          obtain ⟨hc, hname⟩ := resolve_spec cfg.db cfg.path cfg.keep s.already ha n ver vexpr depth _ _ _ _ hres
+          try simp only at h
+          obtain ⟨hc, hname⟩ := pickDecl_spec cfg.db s.cache d _ hc hname
+          revert h hc hname; generalize pickDecl cfg.db s.cache d = d; intro h hc hname
           exact install_spec cfg rank hdag (setup cfg k) ih depth noRec vro d reason hc _ s'
-            (register_already cfg depth d reason s ha hc) (by rw [register_env]; exact hw)
+            (register_already cfg depth d reason (s.afterResolve cfg depth vro n ver vexpr) ha hc) (by rw [register_env]; exact hw)
             (by rw [register_env]; exact hn) h
 
 end EupsModel.Setup
